@@ -23,6 +23,7 @@ var c06Stateful = []string{
 	"<Foo> x\n", "para\n<Foo>\nmore\n", "</Foo a=\"b\">\nx\n", "<Foo>\n*x*\n\ny\n", "para\n</Foo>\nmore\n", "<foo>\nx\n", "para\n<foo>\nmore\n",
 	"<DIV> x\n", "para\n<DIV>\nmore\n", "<Div\n", "para\n<Div>\nmore\n", "<MyPanel k=v>\n", "para\n<MyPanel>\nmore\n", "para\n<sCript>\nmore\n", "<sCript> x\n",
 	"<Foo>\n", "- <Foo> x\n- para\n  <Foo>\n", "> <Foo> x\n\npara\n<Foo>\n",
+	"[x](javascript:alert(1))\n", "![i](vbscript:x \"t\")\n", "<javascript:a>\n", "[r]: data:text/html,x\n\n[r]\n", "[y](file:///etc/passwd) [z](/ok)\n",
 	"[a](/u \"line1\nline2\")\n", "[r]: /u 'x\ny'\n\n[r]\n", "![i](/s \"p\nq\")\n", "[foo\nbar]: /u\n\n[foo bar]\n", "[b](/v \"other\ntitle\")\n", "it's 'open\n", "closed' here\n", "say \"open\n", "end\" now\n",
 	"\ufeff# Title\n", "\ufefftext\n", "# h {#custom}\n\n# h\n", "![i][foo]\n\n[foo]: /img\n", "<div>\nraw\n</div>\n", "*a **b** c*\n", "> q\n> r\n", "1. x\n2. y\n",
 }
